@@ -525,6 +525,25 @@ Proof.
   intro H. rewrite <- (firstn_skipn 3 s). apply in_or_app. right. exact H.
 Qed.
 
+Lemma skipn_In {A} (b : A) : forall n l, In b (skipn n l) -> In b l.
+Proof. induction n as [|n IH]; intros [|y l] H; cbn [skipn] in H; try exact H. right. apply IH. exact H. Qed.
+
+(* the rest is a suffix of the text after the byte order mark, whatever the delimiter *)
+Lemma split_rest_In x dl fm r b :
+  split_off_front_matter x dl = Ok (Some (fm, r)) -> In b r -> In b x.
+Proof.
+  unfold split_off_front_matter. cbv zeta. intros H Hb.
+  destruct (fm_line_at _ 0) as [l0| |]; cbn [bind] in H; try discriminate H.
+  destruct (negb _ || _); [discriminate H |].
+  destruct (find_closing_line _ _ _ _) as [[e|]| |]; cbn [bind] in H; try discriminate H.
+  destruct (fm_line_at _ e) as [l1| |]; cbn [bind] in H; try discriminate H.
+  destruct (FrontMatter.slice_to _ _) as [f| |]; cbn [bind] in H; try discriminate H.
+  destruct (FrontMatter.slice_from _ _) as [q| |] eqn:E; cbn [bind] in H; try discriminate H.
+  inversion H; subst.
+  unfold FrontMatter.slice_from in E. destruct (FrontMatter.is_char_boundary _ _); [| discriminate E]. inversion E; subst.
+  apply strip_bom_In. rewrite <- FrontMatterProofs.trim_is_strip_bom. eapply skipn_In. exact Hb.
+Qed.
+
 Lemma front_matter_prologue_rest o st x st' rest :
   front_matter_prologue o st x = Ok (st', rest) -> forall b, In b rest -> In b x.
 Proof.
@@ -532,14 +551,13 @@ Proof.
   destruct (bo_front_matter_delimiter o) as [dl|]; [| inversion H; subst; exact Hb].
   destruct (split_off_front_matter x dl) as [[[fm r]|]| |] eqn:E; cbn [bind] in H; try discriminate H.
   2: { inversion H; subst; exact Hb. }
-  apply split_sound in E. destruct E as [E _].
   assert (rest = r) as ->.
   { repeat match type of H with
            | bind ?r0 _ = _ => destruct r0 as [?| |]; cbn [bind] in H; try discriminate H
            | match ?p with _ => _ end = _ => destruct p
            end.
     inversion H. reflexivity. }
-  apply strip_bom_In. rewrite E. apply in_or_app. right. exact Hb.
+  eapply split_rest_In; eassumption.
 Qed.
 
 Lemma block_lines_nob o t x l : plain_trigger t -> nob t x -> block_lines o x l -> nob t (norm_line l).
